@@ -209,17 +209,24 @@ def hopping_scale(table):
     return max(s, 1e-3)
 
 
-def best_gap(table, nmesh=NMESH):
-    """(nocc, indirect gap, E_F) with the largest global gap between band nocc-1 and nocc on the mesh"""
+def best_gap(table, nmesh=NMESH, prefer=0, min_gap=None):
+    """global (indirect) gaps between band nocc-1 and nocc on the mesh.  Returns (nocc, gap, E_F, Emin, Emax) for
+    the `prefer`-th (cyclically) of the gaps that are >= min_gap, or for the widest gap when none qualifies /
+    min_gap is None."""
     ks = np.arange(nmesh) / nmesh
     kk = np.array([[a, b] for a in ks for b in ks])
     H = table.Hk_mesh(kk, convention=2)
     E = np.linalg.eigvalsh(0.5 * (H + np.conj(np.swapaxes(H, 1, 2))))
-    best = None
+    cands = []
     for nocc in range(1, table.n):
         top, bot = E[:, nocc - 1].max(), E[:, nocc].min()
-        if best is None or bot - top > best[1]:
-            best = (nocc, float(bot - top), float(0.5 * (top + bot)))
+        cands.append((nocc, float(bot - top), float(0.5 * (top + bot))))
+    if min_gap == "smallest-open":
+        pos = [c for c in cands if c[1] > 0]
+        best = min(pos, key=lambda c: c[1]) if pos else max(cands, key=lambda c: c[1])
+    else:
+        good = [c for c in cands if min_gap is not None and c[1] >= min_gap]
+        best = good[prefer % len(good)] if good else max(cands, key=lambda c: c[1])
     return best + (float(E.min()), float(E.max()))
 
 
@@ -230,12 +237,12 @@ def chern_case(draw):
     if family in ("haldane_tbm", "haldane_ptb", "haldane"):
         d["hop1"] = draw(st.sampled_from([-1.0, 1.0])) * draw(fl(0.5, 2.0))
         d["r2"] = draw(st.sampled_from([-1.0, 1.0])) * draw(fl(0.1, 0.3))          # hop2 / |hop1|
-        d["phase"] = draw(st.sampled_from(["topological", "topological", "trivial+", "trivial-"]))
+        d["phase"] = draw(st.sampled_from(["topological", "topological", "topological", "trivial+", "trivial-"]))
         d["phi"] = draw(st.sampled_from([-1.0, 1.0])) * draw(fl(0.55, 2.59))       # |sin phi| >= 0.52
         d["x"] = draw(fl(-0.5, 0.5)) if d["phase"] == "topological" else draw(fl(0.3, 2.0))
     if family == "qwz":
         d["n1"], d["n2"] = draw(st.sampled_from([1, 1, 2, -1])), draw(st.sampled_from([1, 1, 2, -1, -2]))
-        d["u"] = draw(st.sampled_from([-1.0, 1.0])) * draw(st.one_of(fl(0.5, 1.5), fl(2.6, 4.0)))   # |u|<2B topological
+        d["u"] = draw(st.sampled_from([-1.0, 1.0])) * draw(st.one_of(fl(0.5, 1.5), fl(0.4, 1.6), fl(2.6, 4.0)))   # |u|<2B topological
         d["A"] = draw(fl(0.6, 1.5))
     if family in ("qwz", "haldane", "random"):
         d["n"] = draw(st.integers(2, 3))
@@ -252,6 +259,7 @@ def chern_case(draw):
         d["a3neg"] = draw(st.booleans())
     if family == "random":
         d["nhop"] = draw(st.integers(2, 5))
+    d["gapsel"] = draw(st.integers(0, 1))      # which of the sufficiently wide gaps hosts the Fermi level
     return d
 
 
@@ -301,7 +309,7 @@ def build_chern_model(case):
         table.add_onsite_block(0, 0.5 * (M + M.conj().T))
     table.pos = np.array(case["pos"], dtype=float)
     scale0 = hopping_scale(table)
-    gap0 = max(best_gap(table, 24)[1], 0.0) if fam != "random" else scale0
+    gap0 = max(best_gap(table, 24, min_gap="smallest-open")[1], 0.0) if fam != "random" else scale0
     perturb(table, rng, case["eps"] * gap0, case["npert"], case["mix"])
     if fam == "random":
         # staggered mass added by construction until the global gap is wide enough (DESIGN C27)
@@ -363,8 +371,8 @@ def check_chern(case):
     system, table, L, info = build_chern_model(case)
     if not table.is_hermitian(1e-10):
         raise RuntimeError("own table not Hermitian")
-    nocc, gap, Ef, Emin, Emax = best_gap(table)
     scale = hopping_scale(table)
+    nocc, gap, Ef, Emin, Emax = best_gap(table, prefer=case["gapsel"], min_gap=GAP_MIN * scale)
     if gap < GAP_MIN * scale:
         raise Inconclusive("global gap below GAP_MIN x hopping scale")
     C_red, direct, maxphase = tbref.fhs_chern(table, NMESH, nocc)
